@@ -343,6 +343,7 @@ type unit struct {
 	ptaint   map[*types.Var]taintSet // taint of parameters (union over call sites)
 	ltaint   map[types.Object]taintSet
 	ret      taintSet
+	rets     []taintSet // per result position (multi-value `a, b := f()` binds each result to its own taint)
 	sites    []callSite // calls made by this unit (last pass)
 	acquires bool       // directly acquires a package-level lock
 	clos     map[*ast.FuncLit]int
@@ -821,11 +822,44 @@ func (f *fa) stmt(s ast.Stmt, st state) state {
 	case *ast.DeferStmt:
 		f.deferred(s.Call, &st)
 	case *ast.ReturnStmt:
-		for _, r := range s.Results {
+		for i, r := range s.Results {
 			f.ex(r, &st)
 			if t := f.taintOf(r); len(t) > 0 && f.name == f.u.name {
 				if f.u.ret.addAll(t) {
 					f.a.changed = true
+				}
+				if len(s.Results) > 1 {
+					f.retAt(i, t)
+				}
+			}
+		}
+		if f.name == f.u.name && f.u.fn != nil {
+			res := f.u.fn.Type().(*types.Signature).Results()
+			switch {
+			case len(s.Results) == 1 && res.Len() == 1:
+				f.retAt(0, f.taintOf(s.Results[0]))
+			case len(s.Results) == 1 && res.Len() > 1:
+				// return g(...): result i of g is result i of this function
+				if call, ok := unparen(s.Results[0]).(*ast.CallExpr); ok {
+					if cu := f.callee(call); cu != nil {
+						for i := 0; i < res.Len(); i++ {
+							f.retAt(i, cu.retIdx(i))
+						}
+					} else {
+						for i := 0; i < res.Len(); i++ {
+							f.retAt(i, f.taintOf(s.Results[0]))
+						}
+					}
+				}
+			case len(s.Results) == 0:
+				// naked return: the named results carry what was assigned to them
+				for i := 0; i < res.Len(); i++ {
+					if t := f.localTaint(res.At(i)); len(t) > 0 {
+						if f.u.ret.addAll(t) {
+							f.a.changed = true
+						}
+						f.retAt(i, t)
+					}
 				}
 			}
 		}
@@ -998,10 +1032,38 @@ func (f *fa) assignTaint(lhs, rhs []ast.Expr) {
 			}
 		}
 	} else if len(rhs) == 1 {
+		if call, ok := unparen(rhs[0]).(*ast.CallExpr); ok {
+			if cu := f.callee(call); cu != nil && cu.fn.Type().(*types.Signature).Results().Len() == len(lhs) {
+				// a, b := g(...): each variable gets the taint of its own result position
+				for i, l := range lhs {
+					f.addLocalTaint(local(l), cu.retIdx(i))
+				}
+				return
+			}
+		}
 		t := f.taintOf(rhs[0])
 		for _, l := range lhs {
 			f.addLocalTaint(local(l), t)
 		}
+	}
+}
+
+func (u *unit) retIdx(i int) taintSet {
+	if i < len(u.rets) {
+		return u.rets[i]
+	}
+	return nil
+}
+
+func (f *fa) retAt(i int, t taintSet) {
+	if len(t) == 0 {
+		return
+	}
+	for len(f.u.rets) <= i {
+		f.u.rets = append(f.u.rets, taintSet{})
+	}
+	if f.u.rets[i].addAll(t) {
+		f.a.changed = true
 	}
 }
 
